@@ -111,7 +111,7 @@ func runC06(c *Ctx) {
 	if !c.loadSpec("replies.json", &spec) {
 		return
 	}
-	mk := c.P.Method("service", "GoJT808", "createDefaultHandle")
+	mk := c.NamedFunc("service", "createDefaultHandle")
 	if mk == nil {
 		R.Fatal("anchor GoJT808.createDefaultHandle not found")
 		return
